@@ -51,6 +51,8 @@ def hostile_values(f, quick):
             ("bytes_empty", b""), ("bytes_w-1", bytes(max(n - 1, 0))), ("bytes_w", b"\x41" * n), ("bytes_w+1", bytes(n + 1)),
             ("list_empty", []), ("list_w", [0] * n), ("list_w+1", [0] * (n + 1)), ("list_256", [256] * n),
             ("none", None), ("bool", True)]
+    if k != "C":  # text that reads as a number is still text
+        out += [("str_numeric", "12"), ("str_numeric_float", "0.5"), ("bytes_numeric", b"12"), ("str_numeric_padded", " 7 ")]
     if k == "C":  # text given as bytes that are not valid UTF-8 (ISO 8859-1 is the documented encoding of these fields)
         out += [("bytes_w_latin1", b"\xe9" * max(n, 1)), ("bytes_w_latin1_mixed", (b"caf\xe9 \xb0" * n)[: max(n, 1)])]
     if k == "A":  # array fields: lists of exactly the defined length whose ITEMS are unfit
